@@ -709,7 +709,9 @@ def tier_params(tier):
                                            sorted({1, 2, 7, L - 1, L, L + 1, n, n + 1})),
                     form_dev=1, all_lengths=True)
     return dict(Ls=(16, 32, 48, 64), Ls_D=(16, 32), Ls_P=(16, 32, 48, 64), Ls_F=(16, 48, 64),
-                short_bs=lambda L, n: sorted({1, 2, 7, L - 1, L, L + 1, n, n + 1}), form_dev=1, all_lengths=False)
+                # every single short read at every buffer size for bodies up to 90 bytes (thorough: up to 160)
+                short_bs=lambda L, n: (range(1, n + 2) if n <= 90 else sorted({1, 2, 7, L - 1, L, L + 1, n, n + 1})),
+                form_dev=1, all_lengths=False)
 
 
 def mfms_values(L, n, tier, tiny):
